@@ -314,6 +314,9 @@ class Processor:
 
         if isinstance(obj, dict) and att in obj:
             obj[att] = new_value
+        elif not self.has(key) or isinstance(obj, ModelGroup):
+            # Never create a new attribute (and never replace a model of a group)
+            raise AttributeError(f"Parameter {key!r} does not exist !")
         else:
             setattr(obj, att, new_value)
 
